@@ -107,10 +107,10 @@ func c02Gen(c *core.Ctx) {
 
 func init() {
 	core.Register(&core.Engine{
-		ID:        "C02",
-		Level:     "exploration",
-		Technique: "runtime monitoring: generator-known expectation — programs derived from the grammar together with their expected position-free skeleton, rendered under randomised grammar-preserving layouts and parsed by the real ParseCommands; skeleton and comment list compared",
-		Rule:      "a case is a derivation tree (all productions of parser.go.y and every word form) rendered under 3 (thorough 12) layouts: canonical, tight (no optional blank), and randomised (blanks, tabs, comments before newlines and at end of input, backslash-newline between tokens, blank/comment lines where linebreak is allowed; half of them blanks only). distinct_nontrivial = distinct expected skeletons. counters pair/<parent>><child> give the production-pair coverage.",
+		ID:          "C02",
+		Level:       "exploration",
+		Technique:   "runtime monitoring: generator-known expectation — programs derived from the grammar together with their expected position-free skeleton, rendered under randomised grammar-preserving layouts and parsed by the real ParseCommands; skeleton and comment list compared",
+		Rule:        "a case is a derivation tree (all productions of parser.go.y and every word form) rendered under 3 (thorough 12) layouts: canonical, tight (no optional blank), and randomised (blanks, tabs, comments before newlines and at end of input, backslash-newline between tokens, blank/comment lines where linebreak is allowed; half of them blanks only). distinct_nontrivial = distinct expected skeletons. counters pair/<parent>><child> give the production-pair coverage.",
 		Assumptions: []string{"the expectation encodes the documented node shapes (ast doc comments, parser_test.go builders); adjacent literal runs are compared by text, not by node boundaries"},
 		Gen:         c02Gen,
 		Replay:      func(c *core.Ctx, raw []byte) { core.ReplayOne(c, raw, c02Exec) },
